@@ -47,7 +47,14 @@ func referenceWrite(decls []generator.Declaration) string {
 	return sb.String()
 }
 
-func contentFor(id string) string { return "<" + id + ">" }
+// contentFor derives the content from the ID (equal IDs carry equal content);
+// half of the contents contain '%' sequences and a trailing newline of their own.
+func contentFor(id string) string {
+	if len(id)%2 == 0 {
+		return "<" + id + "> 100% done %d %% %!s\n"
+	}
+	return "<" + id + ">"
+}
 
 func declsString(decls []generator.Declaration) string {
 	var parts []string
@@ -195,7 +202,7 @@ func checkC19(cfg *core.Config) int {
 	}
 	rep.Count("random_lists", nRandom)
 	rep.Count("random_permutations", perms)
-	rep.Sample(6, map[string]any{"input": `["a"- "a"P "B"-]`, "output": referenceWrite([]generator.Declaration{{ID: "a", Content: "<a>"}, {ID: "a", Content: "<a>", Priority: true}, {ID: "B", Content: "<B>"}})})
+	rep.Sample(6, map[string]any{"input": `["a"- "a"P "B"-]`, "output": referenceWrite([]generator.Declaration{{ID: "a", Content: contentFor("a")}, {ID: "a", Content: contentFor("a"), Priority: true}, {ID: "B", Content: contentFor("B")}})})
 
 	return rep.Finish(core.Evidence{
 		Level:       "exploration",
